@@ -766,6 +766,12 @@ func genOps(r, r2 *rand.Rand, t *Tree, v *env, nops int, now0 int64) []Op {
 			}
 			emit(Op{Kind: "headers", Peer: 1, Now: nowOK(), Nodes: nodeIDs(full[j : c+v.r4.Intn(3)])})
 			emit(Op{Kind: "headers", Peer: 1, Now: nowOK(), Nodes: nodeIDs(t.path(ci.forkC, ci.sideC))})
+			if _, bt, err := v.e.BS.ChainTip(); err == nil && int32(bt) == ci.c && c < len(full) {
+				// the next main-chain header (a valid child of the tip)
+				// followed by the longer branch forking at the tip, in
+				// ONE message: the first two headers are not linked
+				emit(Op{Kind: "headers", Peer: 1, Now: nowOK(), Nodes: append([]int{full[c].ID}, nodeIDs(t.path(t.main[ci.c-1], ci.sideB))...)})
+			}
 			syncTo(1, mainTip, v.r4)
 			firstPeer = 2
 		}
@@ -773,9 +779,42 @@ func genOps(r, r2 *rand.Rand, t *Tree, v *env, nops int, now0 int64) []Op {
 		pid := firstPeer - 1
 		emit(Op{Kind: "headers", Peer: pid, Now: nowOK(), Nodes: nodeIDs(t.path(t.main[ci.c-1], ci.sideB))})
 		ps[pid].leaf, ps[pid].sent = ci.sideB, ci.sideB
+	case t.trap2 != nil:
+		ti := t.trap2
+		mainTip := t.main[len(t.main)-1]
+		addPeerAt(1, ti.side)
+		syncTo(1, ti.side, v.r4)
+		handOver(1, 2, mainTip, v.r4)
+		firstPeer = 3
+		oneMsg := func(leaf *Node) {
+			br := t.path(ti.base, leaf)
+			upto := int(ti.c2-ti.base.Height) + v.r4.Intn(3)
+			if upto > len(br) {
+				upto = len(br)
+			}
+			emit(Op{Kind: "headers", Peer: 2, Now: nowOK(), Nodes: nodeIDs(br[:upto])})
+		}
+		if v.r4.Intn(5) < 3 {
+			// matches the first checkpoint, contradicts the second:
+			// an invalid branch, the chain must stay as it is
+			oneMsg(ti.forkLeaf)
+		}
+		// the control: matches both (adopted up to the first checkpoint)
+		oneMsg(mainTip)
+		syncTo(2, mainTip, v.r4)
 	case t.flip != nil:
 		fi := t.flip
 		addPeerAt(1, fi.aExt)
+		{
+			// the client's tip is the fork point: a valid child of the
+			// tip followed by its sibling's (longer) branch in ONE
+			// message: the first two headers are not linked
+			syncTo(1, fi.fork, v.r4)
+			if _, bt, err := v.e.BS.ChainTip(); err == nil && int32(bt) == fi.fork.Height {
+				x := t.path(fi.fork, fi.aTip)[0]
+				emit(Op{Kind: "headers", Peer: 1, Now: nowOK(), Nodes: append([]int{x.ID}, nodeIDs(t.path(fi.fork, fi.bTip))...)})
+			}
+		}
 		syncTo(1, fi.aTip, v.r4)
 		for i := v.r4.Intn(3); i > 0; i-- {
 			if !cfBatch(2+v.r4.Intn(4), false, nil) {
@@ -800,6 +839,14 @@ func genOps(r, r2 *rand.Rand, t *Tree, v *env, nops int, now0 int64) []Op {
 			pid = 2
 		}
 		firstPeer = pid + 1
+		if v.r4.Intn(2) == 0 {
+			// an old stored header followed by B (which does not build on
+			// it) in ONE message: not linked
+			k := t.main[v.r4.Intn(len(t.main))]
+			if k != fi.fork {
+				emit(Op{Kind: "headers", Peer: pid, Now: nowOK(), Nodes: append([]int{k.ID}, nodeIDs(t.path(fi.fork, fi.bTip))...)})
+			}
+		}
 		// B: one header longer
 		emit(Op{Kind: "headers", Peer: pid, Now: nowOK(), Nodes: nodeIDs(t.path(fi.fork, fi.bTip))})
 		if v.r4.Intn(2) == 0 {
@@ -1074,6 +1121,30 @@ func genOps(r, r2 *rand.Rand, t *Tree, v *env, nops int, now0 int64) []Op {
 				for i := 0; i < 2+r.Intn(3); i++ {
 					seg = append(seg, t.Nodes[1+r.Intn(len(t.Nodes)-1)])
 				}
+				if r.Intn(2) == 0 {
+					// ... only between the first and the second header:
+					// the first one stored or a child of the stored tip,
+					// the rest a linked piece of the peer's branch
+					a := r.Intn(len(full))
+					first := seg[0]
+					if th, bt, err := v.e.BS.ChainTip(); err == nil {
+						tipHash := th.BlockHash()
+						var cands []*Node
+						for _, n := range t.Nodes[1:] {
+							hh := n.Hash
+							_, e2 := v.e.BS.HeightFromHash(&hh)
+							if (e2 == nil && n.Height <= int32(bt)) || (n.Parent >= 0 && t.Nodes[n.Parent].Hash == tipHash) {
+								cands = append(cands, n)
+							}
+						}
+						if len(cands) > 0 {
+							first = cands[r.Intn(len(cands))]
+						}
+					}
+					if full[a].Parent != first.ID {
+						seg = append([]*Node{first}, full[a:]...)
+					}
+				}
 			}
 			var ns []int
 			for _, n := range seg {
@@ -1185,6 +1256,8 @@ func runHistory(id int, seed int64, nops int, base string, replay *History) (h H
 			t = genFlipTree(r4, &ps, now0)
 		case smode < 28:
 			t = genWfcpTree(r4, &ps, now0)
+		case smode >= 43 && smode < 51:
+			t = genTrap2Tree(r4, &ps, now0)
 		case rmode < 12:
 			t = genRestartTree(r3, &ps, now0)
 		case mode < 15:
@@ -1463,6 +1536,9 @@ func main() {
 		if envs[i].tree.cpf != nil {
 			rep.Histogram["histories_checkpoint_fork_scenario"]++
 		}
+		if envs[i].tree.trap2 != nil {
+			rep.Histogram["histories_two_checkpoints_one_reorg_message_scenario"]++
+		}
 		if envs[i].tree.flip != nil {
 			rep.Histogram["histories_flip_flop_scenario"]++
 		}
@@ -1477,7 +1553,7 @@ func main() {
 	}
 	rep.Evaluations = n
 	rep.DistinctNontrivial = len(distinct)
-	rep.Rule = "histories on the real blockManager handlers over real header stores: a random block tree (main chain 8-30, up to 4 forks incl. work ties and longer branches, single-rule corruptions: pow, bits, time-old, time-new, version) under random parameters (retarget interval 3-8, no-retarget / min-difficulty / BIP94 flags, 0-3 checkpoints, in-memory window 2..10000) revealed by 1-4 peers in chunks, duplicates, overlaps, unconnected batches, with inv, peer arrivals/departures, filter-header batches; scenario histories from a separate PRNG stream: (15%) two checkpoints closer together than one headers message with a valid branch leaving the main chain right after the first one, ONE message from the sync peer through both checkpoint heights while the tip is below the first; (-prop C19, 45%) main chain synced, filter headers committed in batches of >= 3 up to the tip, then a longer valid branch forking >= 2 blocks below the tip, then batches on the new branch; histories with restarts from a third PRNG stream (30%): a restart builds a NEW blockManager (newBlockManager through the verif hook) over the SAME stores, re-installs the notification plumbing and forgets all peers, which have to connect again; (12%) scripted: main chain synced under no-retargeting, filter headers committed, restart, then the new sync peer reveals an equal-work and a lighter branch forking >= 2 blocks below the stored tip (below the whole in-memory window: refused) and a heavier one (adopted); (18%) a restart right before a peer reveals a fork below the stored tip, or at a random point; scenario histories from a fourth PRNG stream: (10%) checkpoint fork under no-retargeting: the client follows a side branch whose tip is exactly ONE BELOW a checkpoint when the heavier main chain through the checkpoint is revealed (handed over by peer departure, restart, or a second peer), or its tip is exactly ON the checkpoint when a heavier branch forking below it is revealed (refused), then a heavier branch forking exactly AT the reached checkpoint (adopted); (10%) flip-flop on one running store: A synced, top of A sent again, heavier B adopted, then A extended by 2-3 headers comes back (adopted), from the same or another peer; (8%) the batch reaching a checkpoint is lost to a failing BlockHeaders.WriteHeaders, then a branch connecting to the stored tip with a different header at the checkpoint height; (15%) the k-th WriteHeaders call (k = 1, 2) of random headers messages fails (a wrapper around the block header store; operation OHeadersF); a restart also closes and re-opens both header stores; with -prop C19 every operation runs against an unbuffered notification channel and NotificationsSinceHeight is probed while the handler is blocked on event k and after it returned (histogram backlog_probes*), also with the n-th FetchHeaderByHeight of the request made to fail through a wrapper of the block header store (backlog_requests_with_read_fault); non-trivial = the history contains a rollback/reorganisation (disconnect events) and committed filter headers (connect events); distinct = distinct op-kind signature"
+	rep.Rule = "histories on the real blockManager handlers over real header stores: a random block tree (main chain 8-30, up to 4 forks incl. work ties and longer branches, single-rule corruptions: pow, bits, time-old, time-new, version) under random parameters (retarget interval 3-8, no-retarget / min-difficulty / BIP94 flags, 0-3 checkpoints, in-memory window 2..10000) revealed by 1-4 peers in chunks, duplicates, overlaps, unconnected batches, with inv, peer arrivals/departures, filter-header batches; scenario histories from a separate PRNG stream: (15%) two checkpoints closer together than one headers message with a valid branch leaving the main chain right after the first one, ONE message from the sync peer through both checkpoint heights while the tip is below the first; (-prop C19, 45%) main chain synced, filter headers committed in batches of >= 3 up to the tip, then a longer valid branch forking >= 2 blocks below the tip, then batches on the new branch; histories with restarts from a third PRNG stream (30%): a restart builds a NEW blockManager (newBlockManager through the verif hook) over the SAME stores, re-installs the notification plumbing and forgets all peers, which have to connect again; (12%) scripted: main chain synced under no-retargeting, filter headers committed, restart, then the new sync peer reveals an equal-work and a lighter branch forking >= 2 blocks below the stored tip (below the whole in-memory window: refused) and a heavier one (adopted); (18%) a restart right before a peer reveals a fork below the stored tip, or at a random point; scenario histories from a fourth PRNG stream: (10%) checkpoint fork under no-retargeting: the client follows a side branch whose tip is exactly ONE BELOW a checkpoint when the heavier main chain through the checkpoint is revealed (handed over by peer departure, restart, or a second peer), or its tip is exactly ON the checkpoint when a heavier branch forking below it is revealed (refused), then a heavier branch forking exactly AT the reached checkpoint (adopted); (10%) flip-flop on one running store: A synced, top of A sent again, heavier B adopted, then A extended by 2-3 headers comes back (adopted), from the same or another peer; (8%) two checkpoints closer together than one message, the client on a side branch below the first: ONE competing message from the fork point through both checkpoint heights that matches the first and contradicts the second (invalid: chain unchanged), then the control matching both; in flip-flop histories and the random stream also messages whose first header (stored, or a valid child of the stored tip) is not the parent of the second while the rest is linked; (8%) the batch reaching a checkpoint is lost to a failing BlockHeaders.WriteHeaders, then a branch connecting to the stored tip with a different header at the checkpoint height; (15%) the k-th WriteHeaders call (k = 1, 2) of random headers messages fails (a wrapper around the block header store; operation OHeadersF); a restart also closes and re-opens both header stores; with -prop C19 every operation runs against an unbuffered notification channel and NotificationsSinceHeight is probed while the handler is blocked on event k and after it returned (histogram backlog_probes*), also with the n-th FetchHeaderByHeight of the request made to fail through a wrapper of the block header store (backlog_requests_with_read_fault); non-trivial = the history contains a rollback/reorganisation (disconnect events) and committed filter headers (connect events); distinct = distinct op-kind signature"
 	for i := 0; i < n && i < 2; i++ {
 		rep.Samples = append(rep.Samples, hs[i])
 	}
